@@ -1300,7 +1300,7 @@ def emit_only_enqueues(chk, P, prefix):
 RECEIVER_ALLOW = {
     (r"^emit_batcher::Capacity::next$", "call:unwrap"): (1, "max() of the fixed 32-element window is never None"),
     (r"^emit_batcher::Retry::next$", "assert:overflow:Add"): (1, "the counter is reset per batch and the loop stops once it exceeds max (<= max+1 increments)"),
-    (r"^emit_batcher::tokio::spawn::\{closure#1\}$", "call:unwrap"): (1, "runtime construction failure on the dedicated worker thread at start-up (before any batch)"),
+    (r"^emit_batcher::tokio::spawn::\{closure#\d+\}$", "call:unwrap"): (1, "runtime construction failure on the dedicated worker thread at start-up (before any batch)"),
     (r"^emit_batcher::sync::Trigger::wait_timeout$", "call:unwrap"): (1, "Condvar::wait_timeout only fails on poisoning; the flag mutex guards no foreign code"),
 }
 
